@@ -89,6 +89,7 @@ func Run(j *job.Job, s *job.Sink) {
     leaf-list ll { type string;%s }
     leaf lf { type string; default q; }
     leaf m { type string; mandatory true; }
+    leaf tdl { type btd; }
     container c { config false; leaf inner { type int8; } }
     choice ch { leaf sh { type string; } }`, 1+r.Intn(3), 5+r.Intn(3), defs)
 		if r.Intn(2) == 0 {
@@ -99,7 +100,7 @@ func Run(j *job.Job, s *job.Sink) {
 		if nest {
 			grp = "grouping inner {\n    " + body + "\n  }\n  grouping g { container w { uses inner; } uses inner; }"
 		}
-		base := fmt.Sprintf("module b { yang-version 1.1; namespace \"urn:b\"; prefix b;\n  %s\n  container u1 { uses g; }\n  container u2 { uses g; }\n  list u3 { key id; leaf id { type string; } uses g; }\n}\n", grp)
+		base := fmt.Sprintf("module b { yang-version 1.1; namespace \"urn:b\"; prefix b;\n  typedef btd { type string; default tdv; }\n  %s\n  container u1 { uses g; }\n  container u2 { uses g; }\n  list u3 { key id; leaf id { type string; } uses g; }\n}\n", grp)
 		later := "module z { yang-version 1.1; namespace \"urn:z\"; prefix z; import b { prefix b; } container u4 { uses b:g; } }\n"
 		// the change, targeting instance u1 only
 		var ch []string
@@ -112,6 +113,9 @@ func Run(j *job.Job, s *job.Sink) {
 			"deviation /b:u1/b:lf { deviate replace { default Z; } }",
 			"deviation /b:u1/b:lf { deviate delete { default q; } }",
 			"deviation /b:u1/b:m { deviate replace { mandatory false; } }",
+			"deviation /b:u1/b:tdl { deviate add { mandatory true; } }",
+			"deviation /b:u1/b:tdl { deviate add { mandatory false; } }",
+			"deviation /b:u1/b:tdl { deviate add { default own; } }",
 			"deviation /b:u1/b:c { deviate replace { config true; } }",
 			"deviation /b:u1/b:c/b:inner { deviate replace { type string; } }",
 			"deviation /b:u1/b:l/b:v { deviate not-supported; }",
@@ -168,6 +172,13 @@ func Run(j *job.Job, s *job.Sink) {
 			}
 			if errs := ms.Process(); len(errs) > 0 {
 				return nil, errs[0]
+			}
+			// half of the runs process the set a second time: what a change did to one
+			// instance must not have leaked into what the next run builds the others from
+			if c%2 == 1 {
+				if errs := ms.Process(); len(errs) > 0 {
+					return nil, errs[0]
+				}
 			}
 			out := map[string]string{}
 			b := yang.ToEntry(ms.Modules["b"])
